@@ -34,6 +34,7 @@ compared only when the line shows it in full); header and footer padded / trunca
 
 import itertools
 
+from ak.color import CHText
 from ak.ppobj import PPTable, PPEnumFieldType
 from models import table_reader as tr
 
@@ -68,6 +69,8 @@ ASSUMPTIONS = [
     "records (documented in ReprColumn/PPTableFormat); limits count body lines including break lines",
     "when the body has exactly n+m+1 lines both 'show all' and 'skip one' satisfy the statement; both are accepted",
     "the default footer ('Total N records') is checked for width only",
+    "the Python type of a yielded line is not part of the property: a line that is a raw list of chunks is "
+    "rendered with CHText(line) and counted as obs:line-is-raw-chunk-list",
 ]
 # every required feature is derived from the case by the reference model, never from the output of the
 # implementation (so a broken implementation cannot make the run look vacuous); what was *observed* in the
@@ -471,13 +474,23 @@ NONTRIVIAL = {"interleave:second-started-while-first-suspended", "interleave:zip
               "footer:longer-than-table", "titles:multi-line", "title:longer-than-max"}
 
 
-def _render_lines(table):
+def _line_text(ln, feats):
+    """Visible text of one yielded line. The type of the yielded object is not part of this property: a raw
+    list of chunks (pinned tree, repaired by 54c0071) is turned into text the way the documented consumers
+    (``CHText("\\n").join(lines)``, ``CHText(line)``) do, and only counted."""
+    if hasattr(ln, "plain_text"):
+        return ln.plain_text()
+    feats.add("obs:line-is-raw-chunk-list")
+    return CHText(ln).plain_text()
+
+
+def _render_lines(table, feats):
     """Consume the line iterator: -> (lines rendered when yielded, the kept line objects rendered afterwards)."""
     kept, now = [], []
     for ln in table.ch_text(no_color=True):
-        now.append(ln.plain_text())
+        now.append(_line_text(ln, feats))
         kept.append(ln)
-    return now, [ln.plain_text() for ln in kept]
+    return now, [_line_text(ln, feats) for ln in kept]
 
 
 def check_case(case, acc):
@@ -487,7 +500,7 @@ def check_case(case, acc):
     acc.trans(2)
     try:
         text = make_table(case).ch_text(no_color=True).plain_text()
-        lines, later = _render_lines(make_table(case))
+        lines, later = _render_lines(make_table(case), feats)
     except Exception as e:  # noqa
         return (f"raises:{type(e).__name__}", f"printing the table raised {type(e).__name__}: {e}",
                 repr(e), "a table"), feats, None
@@ -541,8 +554,8 @@ def check_interleaved(case, acc):
                     break
             l2.extend(g2)
             l1.extend(g1)
-        text1 = "\n".join(x.plain_text() for x in l1)
-        text2 = "\n".join(x.plain_text() for x in l2)
+        text1 = "\n".join(_line_text(x, feats) for x in l1)
+        text2 = "\n".join(_line_text(x, feats) for x in l2)
     except Exception as e:  # noqa
         return (f"interleaved:raises:{type(e).__name__}", f"interleaved printing raised {type(e).__name__}: {e}",
                 repr(e), "two tables"), feats, None
